@@ -157,6 +157,8 @@ pub struct Boundary {
 }
 
 pub fn boundary(fmt: Fmt, bits: u64, mid: bool) -> Boundary {
+    // zero has no digits to vary: use the midpoint above it instead
+    let mid = mid || bits == 0;
     let d = if mid { oracle::upper_mid(fmt, bits) } else { oracle::float_dec(fmt, bits) };
     Boundary { bits, mid, d }
 }
